@@ -2,6 +2,7 @@ import Clikit.Model.Switches
 import Clikit.Model.Gate
 import Clikit.Props.C08
 import Clikit.Props.C10
+import Clikit.Lemmas.App
 /-!
 # C09 - global switches act the same wherever they appear and whatever command runs
 
@@ -162,5 +163,208 @@ example : ∀ f ∈ [none, some Gen.IOFlags.DEBUG],
 example : createIO ["-q".toList, "--".toList, "-vvv".toList] false = createIO ["-q".toList] false :=
   (io_only_option_tokens _ false).1
 
+
+/-! ## End to end: the composed model of `ConsoleApplication.run` (`Model/App.lean`)
+
+`App.runApp` composes the switches model with the resolver (C03), the parser (C01/C02), the help
+target (C13) and the run model (C04) in the order of the code; the driver entry `c09.app_run`
+compares it with the real run of the default application on every generated case.  The theorems
+below hold for ALL command trees, token lists, conversion tables and handler behaviours. -/
+section AppRun
+open Clikit.App Clikit.Parser Clikit.Resolver Clikit.Help
+
+/-- **The I/O configuration of a run is exactly what `createIO` computes from the option tokens**,
+whatever the command tree, whatever command the line selects (or fails to), whatever the handlers do -/
+theorem app_io_is_switches (env : Env) (cv : Conv) (app : List Cmd) (hs : Handlers) (toks : List Str) :
+    (runApp env cv app hs toks).io = createIO toks env.debug ∧
+    ∀ (cv' : Conv) (app' : List Cmd) (hs' : Handlers),
+      (runApp env cv' app' hs' toks).io = (runApp env cv app hs toks).io := by
+  refine ⟨runApp_io env cv app hs toks, fun cv' app' hs' => ?_⟩
+  rw [runApp_io, runApp_io]
+
+/-- **A help switch among the option tokens**: no handler of the application is invoked; and when
+the lenient parse of the help command succeeds the run shows the page `helpTarget` (C13) selects,
+with status 0 - unless the parsed args also have the version option set: then the version listener
+answers first (name and version, status 0).  When the help handler cannot resolve the page
+(`helpTarget` is an error) that error is what the run reports.
+`helpNamedB`: the command `get_command("help")` returns is named `help` (decided on every real tree). -/
+theorem app_help_switch (env : Env) (cv : Conv) (app : List Cmd) (hs : Handlers) (toks : List Str)
+    (hsw : helpSwitch toks = true) (hn : helpNamedB app = true) :
+    (runApp env cv app hs toks).invoked = [] ∧
+    ∀ (h : Cmd) (a : Args), (Coll.ofList app).get? helpName = some h → parse cv h.fmt true toks = .ok a →
+      (versionSet a = false → ∀ t, helpTarget cv app toks = .ok (some t) →
+        (runApp env cv app hs toks).what = .helpPage t ∧ (runApp env cv app hs toks).status = some 0) ∧
+      (versionSet a = false → ∀ e, helpTarget cv app toks = .error e →
+        (runApp env cv app hs toks).what = .error e) ∧
+      (versionSet a = true →
+        (runApp env cv app hs toks).what = .version ∧ (runApp env cv app hs toks).status = some 0) := by
+  have hrc := resolveCommand_switch cv app toks hsw
+  constructor
+  · -- no handler: either nothing is selected, or the command named `help`
+    cases hg : (Coll.ofList app).get? helpName with
+    | none =>
+      simp only [hg] at hrc
+      rw [runApp_error env cv app hs toks _ hrc]
+    | some h =>
+      cases hp : parse cv h.fmt true toks with
+      | error e =>
+        simp only [hg, hp] at hrc
+        rw [runApp_error env cv app hs toks _ hrc]
+      | ok a =>
+        simp only [hg, hp] at hrc
+        rw [runApp_ok env cv app hs toks _ _ hrc]
+        simp [isHelpPath, helpNamed_name app h hn hg]
+  · intro h a hg hp
+    simp only [hg, hp] at hrc
+    have hname := helpNamed_name app h hn hg
+    have ht := helpTarget_switch cv app toks hsw h a hg hp
+    rw [runApp_ok env cv app hs toks _ _ hrc]
+    have hpath : isHelpPath [h.name] = true := by simp [isHelpPath, hname]
+    refine ⟨fun hv t htt => ?_, fun hv e hte => ?_, fun hv => ?_⟩
+    · rw [ht] at htt
+      cases hh : handlerTarget cv app toks a with
+      | error e => rw [hh] at htt; cases htt
+      | ok t' =>
+        rw [hh] at htt
+        have : t' = t := by simpa [Except.map] using htt
+        subst this
+        simp only [whatOf, hv, hpath, hh, handlerOutcome, run_pass, run_ret0, Bool.false_eq_true, if_false, if_true]
+        exact ⟨trivial, trivial⟩
+    · rw [ht] at hte
+      cases hh : handlerTarget cv app toks a with
+      | ok t' => rw [hh] at hte; cases hte
+      | error e' =>
+        rw [hh] at hte
+        have : e' = e := by simpa [Except.map] using hte
+        subst this
+        simp only [whatOf, hv, hpath, hh, Bool.false_eq_true, if_false, if_true]
+    · simp only [whatOf, hv, run_version, if_true]
+      exact ⟨trivial, trivial⟩
+
+/-- **The version switch**: no help switch, the line resolves and parses, and the parsed args have
+the version option set: name and version are shown, status 0, no handler is invoked, nothing escapes -/
+theorem app_version_switch (env : Env) (cv : Conv) (app : List Cmd) (hs : Handlers) (toks : List Str)
+    (path : List Str) (a : Args) (hsw : helpSwitch toks = false) (hr : resolve cv app toks = .ok (path, a))
+    (hv : versionSet a = true) :
+    (runApp env cv app hs toks).what = .version ∧ (runApp env cv app hs toks).status = some 0 ∧
+    (runApp env cv app hs toks).invoked = [] ∧ (runApp env cv app hs toks).escaped = none := by
+  have hrc : resolveCommand cv app toks = .ok (path, a) := by rw [resolveCommand_noswitch cv app toks hsw, hr]
+  rw [runApp_ok env cv app hs toks _ _ hrc]
+  simp only [whatOf, hv, run_version, if_true, List.replicate_zero, ite_self]
+  exact ⟨trivial, trivial, trivial, trivial⟩
+
+/-- **The command `help`** (no switch): a line that resolves to the top-level command `help` shows
+the page `helpTarget` selects, status 0, and invokes no handler of the application -/
+theorem app_help_command (env : Env) (cv : Conv) (app : List Cmd) (hs : Handlers) (toks : List Str)
+    (a : Args) (hsw : helpSwitch toks = false) (hr : resolve cv app toks = .ok ([helpName], a))
+    (hv : versionSet a = false) (t : Target) (ht : helpTarget cv app toks = .ok (some t)) :
+    (runApp env cv app hs toks).what = .helpPage t ∧ (runApp env cv app hs toks).status = some 0 ∧
+    (runApp env cv app hs toks).invoked = [] := by
+  have hrc : resolveCommand cv app toks = .ok ([helpName], a) := by
+    rw [resolveCommand_noswitch cv app toks hsw, hr]
+  have hpath : isHelpPath [helpName] = true := by simp [isHelpPath]
+  rw [helpTarget_command cv app toks hsw _ a hr, hpath] at ht
+  rw [runApp_ok env cv app hs toks _ _ hrc]
+  cases hh : handlerTarget cv app toks a with
+  | error e => simp [hh, Except.map] at ht
+  | ok t' =>
+    have : t' = t := by simpa [hh, Except.map] using ht
+    subst this
+    simp only [whatOf, hv, hpath, hh, handlerOutcome, run_pass, run_ret0, Bool.false_eq_true, if_false, if_true]
+    exact ⟨trivial, trivial, trivial⟩
+
+/-- **Tokens after `--` are inert**: for a prefix without `--` and ANY two tails, the two runs have
+the I/O configuration of the prefix alone, the help listener decides as for the prefix alone (so a
+`-h` / `--help` after `--` never turns the line into a help request: without a switch in the
+prefix the command is selected by the resolver), and for EVERY args format the options set by the
+parse - hence whether the version option is set, i.e. whether the line is a version request - do
+not depend on the tail. -/
+theorem app_switches_after_dashes_inert (env : Env) (cv : Conv) (app : List Cmd) (hs : Handlers)
+    (pre tail tail' : List Str) (h : ['-', '-'] ∉ pre) :
+    (runApp env cv app hs (pre ++ ['-', '-'] :: tail)).io = createIO pre env.debug ∧
+    (runApp env cv app hs (pre ++ ['-', '-'] :: tail)).io = (runApp env cv app hs (pre ++ ['-', '-'] :: tail')).io ∧
+    helpSwitch (pre ++ ['-', '-'] :: tail) = helpSwitch pre ∧
+    (helpSwitch pre = false →
+      resolveCommand cv app (pre ++ ['-', '-'] :: tail) = resolve cv app (pre ++ ['-', '-'] :: tail)) ∧
+    (∀ (f : Fmt) (lenient : Bool) (a a' : Args),
+      parse cv f lenient (pre ++ ['-', '-'] :: tail) = .ok a → parse cv f lenient (pre ++ ['-', '-'] :: tail') = .ok a' →
+      a.opts = a'.opts ∧ versionSet a = versionSet a') := by
+  refine ⟨?_, ?_, help_after_dashes pre tail h, fun hno => ?_, fun f lenient a a' hp hp' => ?_⟩
+  · rw [runApp_io, io_after_dashes pre tail env.debug h]
+  · rw [runApp_io, runApp_io, io_after_dashes pre tail env.debug h, io_after_dashes pre tail' env.debug h]
+  · exact resolveCommand_noswitch cv app _ (by rw [help_after_dashes pre tail h, hno])
+  · have := App.parse_opts_tail cv f lenient pre tail tail' h a a' hp hp'
+    exact ⟨this, by simp only [versionSet, this]⟩
+
+/-! ### Non-vacuity on the small application `App.Demo` (`help`, `server` / `srv`, `server add`)
+
+Every theorem above is applied with all its hypotheses discharged by evaluation, and the
+conclusion is a concrete fact about the run. -/
+section Demo
+open Clikit.App.Demo
+
+/-- the I/O configuration of `server add -q -vv` is the one of `-q -vv`, whoever handles the line -/
+example : (runApp env cv app hs [S "server", S "add", S "-q", S "-vv"]).io =
+    { ansi := .auto, verbosity := 2, quiet := true, interactive := true } :=
+  (app_io_is_switches env cv app hs _).1.trans (by decide)
+
+/-- `server add x -h`: no handler, and the page of `server add` with status 0 (the lenient parse of the
+`help` command takes the three names as its `command` argument) -/
+example : (runApp env cv app hs [S "server", S "add", S "x", S "-h"]).invoked = [] :=
+  (app_help_switch env cv app hs _ (by decide) (by decide)).1
+example : (runApp env cv app hs [S "server", S "add", S "x", S "-h"]).what = .helpPage (.cmd [S "server", S "add"]) ∧
+    (runApp env cv app hs [S "server", S "add", S "x", S "-h"]).status = some 0 :=
+  ((app_help_switch env cv app hs _ (by decide) (by decide)).2 cHelp
+    { args := [(S "command", .list [.str (S "server"), .str (S "add"), .str (S "x")])],
+      opts := [(S "help", .scalar (.bool true))] }
+    (by rfl) (by decide +kernel)).1 (by decide) _ (by decide +kernel)
+
+/-- `-h -V`: the help command is selected, its parsed args have the version option: the version wins -/
+example : (runApp env cv app hs [S "-h", S "-V"]).what = .version ∧
+    (runApp env cv app hs [S "-h", S "-V"]).status = some 0 :=
+  ((app_help_switch env cv app hs _ (by decide) (by decide)).2 cHelp
+    { args := [], opts := [(S "help", .scalar (.bool true)), (S "version", .scalar (.bool true))] }
+    (by rfl) (by decide +kernel)).2.2 (by decide)
+
+/-- `nope -h`: the help handler cannot resolve `nope`: that error is what the run reports -/
+example : (runApp env cv app hs [S "nope", S "-h"]).what = .error .cannotResolve :=
+  ((app_help_switch env cv app hs _ (by decide) (by decide)).2 cHelp
+    { args := [(S "command", .list [.str (S "nope")])], opts := [(S "help", .scalar (.bool true))] }
+    (by rfl) (by decide +kernel)).2.1 (by decide) _ (by decide +kernel)
+
+/-- `srv add x -V`: the version, status 0, although the handler of `server add` would return 3 -/
+example : (runApp env cv app hs [S "srv", S "add", S "x", S "-V"]).what = .version ∧
+    (runApp env cv app hs [S "srv", S "add", S "x", S "-V"]).status = some 0 ∧
+    (runApp env cv app hs [S "srv", S "add", S "x", S "-V"]).invoked = [] ∧
+    (runApp env cv app hs [S "srv", S "add", S "x", S "-V"]).escaped = none :=
+  app_version_switch env cv app hs _ [S "server", S "add"] (addArgs ["x"] ["version"]) (by decide)
+    (by decide +kernel) (by decide)
+
+/-- `help server`: the page of `server` -/
+example : (runApp env cv app hs [S "help", S "server"]).what = .helpPage (.cmd [S "server"]) ∧
+    (runApp env cv app hs [S "help", S "server"]).status = some 0 ∧
+    (runApp env cv app hs [S "help", S "server"]).invoked = [] :=
+  app_help_command env cv app hs _ { args := [(S "command", .list [.str (S "server")])], opts := [] } (by decide)
+    (by decide +kernel) (by decide) _ (by decide +kernel)
+
+/-- `server add -q -- -h -V`: the switches after `--` are names for `server add`; the run is quiet, it
+is neither a help nor a version request, the handler runs (status 3) -/
+example : (runApp env cv app hs ([S "server", S "add", S "-q"] ++ ['-', '-'] :: [S "-h", S "-V"])).io =
+    createIO [S "server", S "add", S "-q"] false :=
+  (app_switches_after_dashes_inert env cv app hs _ [S "-h", S "-V"] [] (by decide)).1
+example : helpSwitch ([S "server", S "add", S "-q"] ++ ['-', '-'] :: [S "-h", S "-V"]) = false :=
+  (app_switches_after_dashes_inert env cv app hs _ [S "-h", S "-V"] [] (by decide)).2.2.1.trans (by decide)
+/-- the parse of `server add`'s format on the line with and without the tail: same options (`quiet`), so
+neither has the version option -/
+example : versionSet (addArgs ["-h", "-V"] ["quiet"]) = versionSet { args := [], opts := [(S "quiet", .scalar (.bool true))] } :=
+  ((app_switches_after_dashes_inert env cv app hs [S "server", S "add", S "-q"] [S "-h", S "-V"] [] (by decide)).2.2.2.2
+    cAdd.fmt false _ _ (by decide +kernel) (by decide +kernel)).2
+example : (runApp env cv app hs [S "server", S "add", S "-q", S "--", S "-h", S "-V"]).status = some 3 ∧
+    (runApp env cv app hs [S "server", S "add", S "-q", S "--", S "-h", S "-V"]).invoked =
+      [([S "server", S "add"], addArgs ["-h", "-V"] ["quiet"])] := by decide +kernel
+
+end Demo
+
+end AppRun
 
 end Clikit.Props.C09
